@@ -48,6 +48,7 @@ impl Session {
                 match req.as_mut().read(&mut self.connection).await {
                     Ok(Some(())) => {
                         let close = matches!(req.headers.Connection(), Some("close" | "Close"));
+                        #[cfg(ohkami_verif)] crate::__verif::emit("parsed", close as usize, 0);
 
                         let res = match catch_unwind(AssertUnwindSafe({
                             let req = req.as_mut();
@@ -56,12 +57,18 @@ impl Session {
                             Ok(future) => future.await,
                             Err(panic) => panicking(panic),
                         };
+                        #[cfg(ohkami_verif)] crate::__verif::emit("handled", res.status.code() as usize, 0);
                         let upgrade = res.send(&mut self.connection).await;
+                        #[cfg(ohkami_verif)] crate::__verif::emit("sent", 0, 0);
 
                         if !upgrade.is_none() {break upgrade}
                         if close {break Upgrade::None}
                     }
+                    #[cfg(ohkami_verif)]
+                    Ok(None) => {crate::__verif::emit("close", 0, 0); break Upgrade::None},
                     Ok(None) => break Upgrade::None,
+                    #[cfg(ohkami_verif)]
+                    Err(res) => {crate::__verif::emit("rejected", res.status.code() as usize, 0); res.send(&mut self.connection).await; crate::__verif::emit("sent", 0, 1);},
                     Err(res) => {res.send(&mut self.connection).await;},
                 }
             }
